@@ -315,7 +315,9 @@ func ParseExpr(sql string) (x *X, err error) {
 
 // Operator precedence of the target dialect (ClickHouse; PostgreSQL agrees on
 // everything the compiler emits), loosest first:
-//   OR < AND < NOT < IS [NOT] NULL < = <> < <= > >= IN < || < + - < * / % < unary - + < [ ] .
+//
+//	OR < AND < NOT < IS [NOT] NULL < = <> < <= > >= IN < || < + - < * / % < unary - + < [ ] .
+//
 // Binary operators are left-associative.
 func (p *parser) expr() *X { return p.or() }
 
